@@ -142,6 +142,12 @@ class RecStream:
         self.run.on_write(bytes(data))
 
     def close(self):
+        """`Connection.close()` -> `_cleanup` -> `Channel.close()`: the application shuts the transport"""
+        run = self.run
+        run.sched.before_action("_channel")
+        if not run.dead:
+            run.dead = True
+            run.tok("D")
         self.closed = True
 
 
@@ -306,9 +312,29 @@ def norm_reent(e):
 
 
 def norm_msg(m):
-    """(id, three-write packet?, kind: q request / r reply / e exception)"""
+    """(id, three-write packet?, kind: q request / r reply / e exception / X = `conn.close()`, whose HANDLE_CLOSE
+    request is the message)"""
     m = tuple(m)
     return (m[0], bool(m[1]), m[2] if len(m) > 2 else "q")
+
+
+_CLOSE_DATUM = {}
+
+
+def close_datum(seq):
+    """the datum `_send` should queue for the HANDLE_CLOSE request of `Connection.close()` with sequence number
+    `seq`: learnt on a scratch connection whose `_send` only records its arguments"""
+    Connection, _Channel, brine, _consts = rpyc_parts()
+    key = (seq, Connection.close.__code__, Connection._async_request.__code__, brine.dump.__code__)
+    if key not in _CLOSE_DATUM:
+        import itertools
+        conn = make_connection(ScratchStream())
+        got = []
+        conn._send = lambda msg, s, args: got.append((msg, s, args))
+        conn._seqcounter = itertools.count(seq)
+        conn.close()
+        _CLOSE_DATUM[key] = brine.dump(got[0])
+    return _CLOSE_DATUM[key]
 
 
 _FINALIZER_DATUM = {}
@@ -384,7 +410,10 @@ class Run:
             self.big[mid] = bool(big)
             self.kind[mid] = kind
             self.payload[mid] = (bytes(PAD_BIG) if big else b"", mid)
-            self.expected[mid] = brine.dump((self.kind_const[kind], mid, self.payload[mid]))
+            if kind == "X":           # `conn.close()`: its HANDLE_CLOSE request gets this id as sequence number
+                self.expected[mid] = close_datum(mid)
+            else:
+                self.expected[mid] = brine.dump((self.kind_const[kind], mid, self.payload[mid]))
             self.big[mid] = len(wire_form(self.expected[mid])) > 1
         try:
             conn = make_connection(RecStream(self))
@@ -632,6 +661,12 @@ class Run:
     def body(self, os_t):
         for mid, _big, kind in self.progs[os_t]:
             try:
+                if kind == "X":
+                    if not self.bare:
+                        import itertools
+                        self.conn._seqcounter = itertools.count(mid)
+                        self.conn.close()         # HANDLE_CLOSE through `_send`, then `_cleanup` closes the channel
+                    continue
                 self.conn._send(self.kind_const[kind], mid, self.payload[mid])
             except EOFError:
                 if not self.dead:
@@ -857,6 +892,8 @@ C_2x1_DUMP = cfg([[(1, False)], [(2, False)]], dumpyield=[(1, 1), (1, 3), (1, 5)
 C_2x1_DUMP_GC = cfg([[(1, False)], [(2, False)]], [H(1, "d", 3, "b", (9, False), "g")], dumpyield=[(2, 2)])
 C_2x12_KINDS = cfg([[(1, False, "r")], [(2, False, "q"), (3, False, "r")]])
 C_2x12_KINDS2 = cfg([[(1, True, "q")], [(2, False, "r"), (3, False, "e")]])
+C_2x12_CLOSE = cfg([[(1, False)], [(2, False), (3, False, "X")]])
+C_2x21_CLOSE = cfg([[(1, True), (4, False)], [(2, False), (3, False, "X")]])
 C_4x1 = cfg([[(1, False)], [(2, False)], [(3, False)], [(4, False)]])
 C_2x4 = cfg([[(1, False), (2, False), (3, False), (4, False)], [(5, False), (6, False), (7, False), (8, False)]])
 C_2x15 = cfg([[(1, False)], [(2, False), (3, False), (4, False), (5, False), (6, False)]])
@@ -876,6 +913,7 @@ def thorough_exhaustive():
 def quick_stateful():
     """explored state by state: every reachable state expanded once, every transition executed"""
     return ([("2x(1,2)", C_2x12), ("2x(1,2)-request+reply", C_2x12_KINDS), ("2x(1,2)-big+reply+exception", C_2x12_KINDS2),
+             ("2x(1,request+close())", C_2x12_CLOSE),
              ("2x1+preemption-inside-brine.dump", C_2x1_DUMP), ("2x1+netref-finalizer-inside-brine.dump", C_2x1_DUMP_GC),
              ("2x1+reentrant-after-write", C_2x1_RA), ("2x2", C_2x2),
              ("2x(1,2)+write-fails", C_2x12_FAIL0), ("2x(2,1)-big+write-fails-mid-packet", C_2x1_BIG_FAIL1),
@@ -885,7 +923,8 @@ def quick_stateful():
 
 def thorough_stateful():
     return ([c for c in C_EVERY_LINE if c[0].split("@")[1] not in ("a0b", "l0a", "p0b", "r0a")]
-            + [("2x(1,2)-big+reentrant-mid-packet", C_2x12_R), ("2x2-big", C_2x2_BIG), ("2x2+write-fails", C_2x2_FAIL), ("2x3", C_2x3), ("3x1", C_3x1),
+            + [("2x(big+1,request+close())", C_2x21_CLOSE), ("2x(1,2)-big+reentrant-mid-packet", C_2x12_R),
+               ("2x2-big", C_2x2_BIG), ("2x2+write-fails", C_2x2_FAIL), ("2x3", C_2x3), ("3x1", C_3x1),
                ("2x(1,5)", C_2x15), ("3x(1,2,1)", C_3x121)])
 
 
@@ -906,6 +945,10 @@ def random_config(r, with_reent, large=False, with_fail=False):
             mid += 1
         progs.append(p)
     bigof = dict((m[0], m[1]) for p in progs for m in p)
+    if r.chance(1, 6):          # one thread ends by closing the connection (HANDLE_CLOSE through _send, then the channel)
+        progs[r.below(nthreads)].append((mid, False, "X"))
+        bigof[mid] = False
+        mid += 1
     reent = []
     if with_reent:
         for j in range(r.range(1, 3)):
@@ -989,7 +1032,7 @@ class Batch:
             c.count("messages-per-thread-max:%d" % max(len(p) for p in case["progs"]))
             for p in case["progs"]:
                 for m in p:
-                    c.count("message-kind:" + dict(q="request", r="reply", e="exception")[m[2] if len(m) > 2 else "q"])
+                    c.count("message-kind:" + dict(q="request", r="reply", e="exception", X="close()")[m[2] if len(m) > 2 else "q"])
             if case.get("dumpyield"):
                 c.count("preemption-inside-brine.dump")
             for e in case["reent"]:
@@ -1293,6 +1336,16 @@ def oracle(run, res):
     if res.truncated:
         return ("senders still running after %d steps (no configuration needs more than a few hundred)"
                 % len(res.schedule), "livelock")
+    if sc.all_finished() and run.dead:
+        # what `after_transport_failure` states, on the real objects: the lock is not leaked; every appended message
+        # is exactly one of transmitted / dropped by a failed write / still queued, in append order; the wire is
+        # whole packets plus at most the one truncated packet the failure cut
+        q = [run.ident(x) for x in run.conn._send_queue.items()]
+        if run.conn._sendlock.locked():
+            return "all senders returned after the transport failed but the send lock is still held", "lock-leaked"
+        if ids + run.lost + q != run.append_order:
+            return ("after the transport failed: transmitted %s + dropped by a failed write %s + still queued %s is not "
+                    "the append order %s" % (ids, run.lost, q, run.append_order), "not-conserved-after-failure")
     if sc.all_finished() and not run.dead:
         q = [run.ident(x) for x in run.conn._send_queue.items()]
         if q:
